@@ -1318,6 +1318,15 @@ struct Exec {
             config_set_bool(c, "logspec", (variant & 12) == 12);
             config_set_str(c, "transform", (variant & 16) ? "dct" : "legacy");
             config_set_int(c, "lifter", (variant & 32) ? 22 : 0);
+            // dense filterbanks: above some 44 filters at 8 kHz / 59 at 16 kHz two edges of a filter round to one DFT point
+            static const int nf[] = { 40, 60, 90, 120 };
+            config_set_int(c, "nfilt", nf[(variant >> 6) & 3]);
+            if (variant & 256) {
+                config_set_int(c, "samprate", 8000);
+                config_set_float(c, "upperf", 3500.0);
+            }
+            if (variant & 512)
+                config_set_float(c, "lowerf", 20.0);
             config_set_bool(c, "dither", 0);
             fe = fe_init(c);
             config_free(c);
@@ -1365,7 +1374,8 @@ struct Exec {
         if (bad_vals)
             viol("C18", "features_finite", variant < 0 ? "cepstra" : "cepstra_other_fe_config",
                  std::to_string(bad_vals) + " cepstral values are not finite" + (variant < 0 ? std::string() : " (front end with remove_noise=" + std::to_string(variant & 1) + " remove_dc=" +
-                     std::to_string((variant >> 1) & 1) + " logspec=" + std::to_string((variant & 12) == 12) + ")"), opi);
+                     std::to_string((variant >> 1) & 1) + " logspec=" + std::to_string((variant & 12) == 12) + " nfilt=" + std::to_string(40 + 0 * variant + (((variant >> 6) & 3) == 0 ? 0 : ((variant >> 6) & 3) == 1 ? 20 : ((variant >> 6) & 3) == 2 ? 50 : 80)) +
+                     (variant & 256 ? " samprate=8000" : "") + ")"), opi);
         ckd_free_2d(buf);
         fe_free(fe);
     }
@@ -1605,7 +1615,7 @@ struct Exec {
         }
         if (profile == "C18") {
             c18_cepstra(s, opi);
-            c18_cepstra(s, opi, (int)(fnv1a(std::to_string(s.clip.size()) + "/" + std::to_string(opi)) & 63));
+            c18_cepstra(s, opi, (int)(fnv1a(std::to_string(s.clip.size()) + "/" + std::to_string(opi)) & 1023));
             c18_features(s, opi);
             c18_scores(s, r, opi);
         }
